@@ -116,7 +116,8 @@ partial def loopIO (hin : IO.FS.Stream) (hout : IO.FS.Stream) : IO Unit := do
   | "W" :: rest => hout.putStrLn (← Session.writerSession rest)
   | "R" :: rest => hout.putStrLn (← Session.readerSession rest)
   | "HD" :: rest => hout.putStrLn (Session.hdSession rest)
-  | "CR" :: rest => hout.putStrLn (Session.crSession rest)
+  | "HM" :: rest => hout.putStrLn (Session.hmSession rest)
+  | "CR" :: rest => hout.putStrLn (← Session.crSession rest)
   | _ => hout.putStrLn (step line)
   loopIO hin hout
 
